@@ -15,6 +15,7 @@
 package blockfetch
 
 import (
+	"bytes"
 	"context"
 	"errors"
 	"fmt"
@@ -446,6 +447,25 @@ func (c *Client) GetBlock(point pcommon.Point) (ledger.Block, error) {
 	case <-c.batchDoneChan:
 		// BatchDone was processed successfully
 		c.releaseBusy(token)
+		// The server chooses what it sends: only hand back the block that
+		// was asked for
+		if block == nil {
+			return nil, fmt.Errorf(
+				"%s: no block received for requested point",
+				ProtocolName,
+			)
+		}
+		if blockHash := block.Hash(); !bytes.Equal(
+			blockHash.Bytes(),
+			point.Hash,
+		) {
+			return nil, fmt.Errorf(
+				"%s: received block %s does not match requested hash %x",
+				ProtocolName,
+				blockHash.String(),
+				point.Hash,
+			)
+		}
 		return block, nil
 	case <-protocolDone:
 		// Shutdown while waiting for BatchDone
